@@ -152,7 +152,7 @@ def cell_record(cell) -> str:
         "  referenceCellVolume := " + opt(vals["reference_cell_volume"], lrat),
         "  referenceFacetVolume := " + opt(vals["reference_facet_volume"], lrat),
         "  referenceCellEdgeVectors := " + opt(vals["reference_cell_edge_vectors"], lambda v: nested(v, lrat, 2)),
-        "  referenceFacetEdgeVectors := " + opt(vals["reference_facet_edge_vectors"], lambda v: nested(v, lrat, 3)),
+        "  referenceFacetEdgeVectors := " + opt(vals["reference_facet_edge_vectors"], lambda v: nested(v, lrat, 2)),
         "  facetEdgeVertices := " + opt(vals["facet_edge_vertices"], lambda v: nested(v, lnat, 3)),
         "  facetOrientation := " + opt(vals["facet_orientation"], lambda v: nested([int(x) for x in v], lambda i: str(i) if i >= 0 else f"({i})", 1)),
         "  access := [" + (",\n    ".join(acc)) + "]",
